@@ -370,6 +370,11 @@ pub fn c11_spaces(thorough: bool) -> Vec<Spec> {
     // compounds / SE(2) / SE(3)
     v.push(Spec::Cmp { parts: vec![Spec::Rv { dim: 2, bounds: Some(vec![(0.0, 4.0), (0.0, 4.0)]), frac: None }, Spec::So2 { bounds: Some((-3.0, 3.0)), frac: None }], weights: vec![1.0, 0.5] });
     v.push(Spec::Cmp { parts: vec![Spec::So3 { bounds: Some((id, 1.0)), frac: None }, Spec::Rv { dim: 1, bounds: Some(vec![(0.0, 1.0)]), frac: None }], weights: vec![1.0, 2.0] });
+    // weight 0 (a component that does not count for the distance is still bounded), tiny and huge weights
+    v.push(Spec::Cmp { parts: vec![Spec::Rv { dim: 2, bounds: Some(vec![(0.0, 4.0), (0.0, 4.0)]), frac: None }, Spec::So2 { bounds: Some((-1.0, 2.5)), frac: None }], weights: vec![1.0, 0.0] });
+    v.push(Spec::Cmp { parts: vec![Spec::So2 { bounds: Some((-1.0, 1.5)), frac: None }, Spec::Rv { dim: 1, bounds: Some(vec![(0.0, 1.0)]), frac: None }, Spec::So3 { bounds: Some((id, 1.0)), frac: None }], weights: vec![0.0, 1e-300, 1e6] });
+    v.push(Spec::Se2 { weight: 0.0, bounds: Some(vec![(0.0, 4.0), (0.0, 4.0), (-1.0, 2.5)]) });
+    v.push(Spec::Se3 { weight: 0.0, bounds: Some(vec![(0.0, 4.0), (0.0, 4.0), (-1.0, 1.0)]) });
     v.push(Spec::Se2 { weight: 0.5, bounds: Some(vec![(0.0, 4.0), (0.0, 4.0), (-1.0, 2.5)]) });
     v.push(Spec::Se2 { weight: 0.5, bounds: None });
     v.push(Spec::Se3 { weight: 0.5, bounds: Some(vec![(0.0, 4.0), (0.0, 4.0), (-1.0, 1.0)]) });
